@@ -103,6 +103,42 @@ def run(ctx):
         leaves = [x for x in P.subterms(t, data_only=True) if x[0] == "param"]
         ok = all(x[1] == "url" for x in leaves)
         ctx.ob("R2", "return/%s/derives-from-url" % P.show(t, maxdepth=1)[:40], ok and (bool(leaves) or t[0] in ("loop",)), "infer_redirection returns a value that does not derive from its argument only", mod.site(r.node))
+    # the scheme-prefix arm: 'https://' + <scheme-less value> is only allowed for the AMP/Marfeel cache tail and for youtube.com/redirect
+    for r in rets:
+        t = r.term
+        if t[0] == "call" and t[1] == SELF:
+            t = t[2][0]
+        prefixed = [x for x in P.subterms(t, data_only=True) if x[0] == "binop" and x[1] == "Add" and x[2] in (("const", "https://"), ("const", "http://")) and any(y[0] == "call" and y[1] == "urllib.parse.unquote" for y in P.subterms(x[3]))]
+        if not prefixed:
+            continue
+        # conditions of the phi nodes selecting this arm
+        ok = True
+        for x in P.subterms(t):
+            if x[0] == "phi" and (x[2] in prefixed or x[3] in prefixed):
+                txt = [y[2][1] for y in P.subterms(x[1]) if y[0] == "cmp" and y[1] == "In" and y[2][0] == "const" and isinstance(y[2][1], str)]
+                if not any("youtube.com/redirect" in c for c in txt):
+                    ok = False
+        ctx.ob("R2", "scheme-prefix-arm-only-for-youtube-redirect", ok,
+               "infer_redirection prepends 'https://' to a scheme-less parameter value outside the youtube.com/redirect case: the result is neither the input nor a target literally present in it",
+               mod.site(r.node), witness="http://example.com/redirect?url=target.com%2Fx")
+    # the redirect-parameter pattern only accepts a key at the start of the string or right after '?' / '&'
+    from ..relang import Algebra, Unsupported
+    rx = repo.const(mod, "OBVIOUS_REDIRECTS_RE")
+    ctx.rx("ural.infer_redirection.OBVIOUS_REDIRECTS_RE")
+    try:
+        A = Algebra()
+        a = A.regex(rx.pattern, rx.flags, "fullmatch")
+        okl = A.regex(r"[?&]?[A-Za-z_]+=[^&\n]+", rx.flags, "fullmatch")
+        nonl = A.regex(r"[^\n]*", 0, "fullmatch")
+        w = A.subset(A.inter(a, nonl), okl)
+        ctx.ob("R2", "redirect-key-position", w is None,
+               "OBVIOUS_REDIRECTS_RE can match %r: a redirect-like key is accepted elsewhere than at the start of the string or right after '?' / '&' (fragment or path position)" % w,
+               mod.site(repo.const_node(mod, "OBVIOUS_REDIRECTS_RE")), witness="http://example.com/page#url=http%3A%2F%2Ftarget.com%2Fx")
+        keys = A.regex(r"[?&](?:url|u|next|redirect|redirect_to|target|link|goto|l|q)=x", 0, "fullmatch")
+        w = A.subset(keys, a)
+        ctx.ob("R2", "redirect-keys-covered", w is None, "OBVIOUS_REDIRECTS_RE no longer recognises %r" % w, mod.site(repo.const_node(mod, "OBVIOUS_REDIRECTS_RE")), witness=w)
+    except Unsupported as e:
+        ctx.undecided("R2", "OBVIOUS_REDIRECTS_RE: %s" % e)
     # the no-target path returns url unchanged
     plain = [r for r in rets if r.term == ("param", "url")]
     ctx.ob("R2", "returns-input-when-nothing-found", bool(plain), "infer_redirection has no path returning its argument unchanged", site)
